@@ -131,6 +131,27 @@ func genHostileCase(t *rapid.T) HostileCase {
 	for i := 0; i < nr; i++ {
 		c.Rules = append(c.Rules, genRule(t, record))
 	}
+	if rapid.IntRange(0, 4).Draw(t, "tunnelled") == 0 {
+		// the client reaches the server through one of its tunnels; half of the time the tunnel itself misbehaves
+		c.Tunnel = rapid.SampledFrom([]string{"http", "http", "ws"}).Draw(t, "tunnel")
+		if rapid.Bool().Draw(t, "tunnel_rule") {
+			r := SrvRule{Nth: rapid.SampledFrom([]int{0, 0, -1}).Draw(t, "tunnel_nth")}
+			if c.Tunnel == "http" {
+				r.Method = rapid.SampledFrom([]string{"TUNNEL-GET", "TUNNEL-GET", "TUNNEL-POST"}).Draw(t, "tunnel_half")
+				r.Kind = rapid.SampledFrom([]string{"status", "status", "garbage", "close", "silent", "truncate"}).Draw(t, "tunnel_kind")
+			} else {
+				r.Method = "TUNNEL-WS"
+				r.Kind = rapid.SampledFrom([]string{"status", "garbage", "close", "silent", "truncate", "ws-badaccept", "ws-noupgrade", "ws-frame", "ws-frame"}).Draw(t, "tunnel_kind")
+			}
+			switch r.Kind {
+			case "status":
+				r.N = rapid.SampledFrom([]int{400, 401, 404, 500, 302, 101, 204}).Draw(t, "tunnel_status")
+			case "garbage", "ws-frame":
+				r.N = rapid.IntRange(0, 7).Draw(t, "tunnel_n")
+			}
+			c.Rules = append(c.Rules, r)
+		}
+	}
 	if !record && rapid.IntRange(0, 2).Draw(t, "paired") == 0 {
 		// deviations at two consecutive steps: a doubtful description followed by a doubtful SETUP answer
 		d := SrvRule{Method: "DESCRIBE", Nth: rapid.SampledFrom([]int{0, -1}).Draw(t, "pair_nth")}
@@ -193,6 +214,9 @@ func TestC12(t *testing.T) {
 			st = &hostileStats{}
 		}
 		labels := []string{"proto:" + c.Proto}
+		if c.Tunnel != "" {
+			labels = append(labels, "tunnel:"+c.Tunnel)
+		}
 		if c.TLS {
 			labels = append(labels, "tls")
 		}
